@@ -6,10 +6,17 @@ use crate::mem::{get_executable_memory_slice, memory_read_byte, memory_write_byt
 pub fn run_code_block(registers: &mut Registers, mem: *mut MemoryAreas) -> u8 {
   let mut status = cpu::STATUS_NORMAL;
   loop {
+    let started_in_fixed_bank = registers.ip < 0x4000;
     match run_next_op(registers, mem) {
       Some((op_status, should_break)) => {
         status = op_status;
         if should_break {
+          break;
+        }
+        // A block never runs on from ROM bank 0 into the switchable bank:
+        // the code behind 0x4000 depends on the bank selected at that time
+        // (the recompiler ends its blocks at the same place).
+        if started_in_fixed_bank && registers.ip >= 0x4000 {
           break;
         }
       },
